@@ -12,6 +12,10 @@ PingOp == [m |-> "Ping", tag |-> 0]
 SubOp == [m |-> "Subscribe", tag |-> 0]
 P0(tag) == [m |-> "Publish", tag |-> tag]
 
+NoIn == <<>>
+In012 == <<[qos |-> 1, tag |-> 501], [qos |-> 2, tag |-> 502], [qos |-> 0, tag |-> 503]>>
+In22 == <<[qos |-> 2, tag |-> 501], [qos |-> 2, tag |-> 502]>>
+ScriptNone == ("w1" :> <<>>)
 ScriptOne == ("w1" :> <<P1(1)>>)
 ScriptQ2  == ("w1" :> <<P2(1)>>)
 ScriptTwo == ("w1" :> <<P1(1), P2(2)>>) @@ ("w2" :> <<P1(3)>>)
